@@ -1,7 +1,7 @@
 (* C04 — Inbound QoS 0/1/2 flows: one hand-over per message, correct acknowledgements.
    Statements only; proofs in Inbound_proofs.v. The model [serve_in] is serve.go:66-139; the
    traces are what the reader goroutine does, in program order (hand-over = handler returned). *)
-From MQ Require Import Base Codec Inbound Inbound_proofs.
+From MQ Require Import Base Codec Inbound Inbound_proofs InboundH InboundH_proofs.
 Open Scope N_scope.
 
 (* for every finite packet sequence, with or without a handler, the serve loop behaves as the
@@ -54,6 +54,38 @@ Theorem C04_no_handler_still_acks : forall ps,
   filter (fun e => negb (is_hand e)) (serve_in true [] ps) = serve_in false [] ps.
 Proof. intros ps. rewrite !refines_spec. apply no_handler_still_acks. Qed.
 
+(* ---- "with and without a registered handler": the handler may be registered late, removed or
+   replaced at any point of the stream (InboundH.v: the stream in segments, one Handle call before
+   each) ---- *)
+
+(* the serve loop refines the abstract receiver on every such history *)
+Theorem C04_refines_spec_segments : forall segs, serve_segs [] segs = spec_segs os_empty segs.
+Proof. exact segs_refine. Qed.
+
+(* as long as SOME handler is registered, replacing it is invisible in what the reader does: hand-overs
+   and acknowledgements are those of the undivided stream, so the six theorems above hold verbatim
+   for histories that replace the handler any number of times *)
+Theorem C04_replacing_handler_is_invisible : forall segs,
+  Forall (fun s => has_handler (fst s) = true) segs ->
+  map snd (concat (serve_segs [] segs)) = serve_in true [] (flat_map snd segs).
+Proof. intros segs H. apply replacing_handler_is_invisible; exact H. Qed.
+
+(* a hand-over goes to the handler registered when it happens *)
+Theorem C04_hand_over_goes_to_current_handler : forall segs k i m,
+  In (i, Hand m) (nth k (serve_segs [] segs) []) -> exists ps, nth_error segs k = Some (Some i, ps).
+Proof. intros segs k i m. apply hand_over_goes_to_current_handler. Qed.
+
+(* for QoS 2 that is the time of the PUBREL: a message stored while no handler was registered, or while
+   another one was, is released to the handler registered when its PUBREL arrives *)
+Theorem C04_q2_stored_without_handler : forall m i, m_qos m = 2 ->
+  serve_segs [] [(None, [InPublish m]); (Some i, [InPubRel (m_id m)])]
+  = [[(0%nat, WPubRec (m_id m))]; [(i, Hand m); (0%nat, WPubComp (m_id m))]].
+Proof. exact q2_stored_without_handler_released_to_later_handler. Qed.
+Theorem C04_q2_released_to_replacing_handler : forall m i j, m_qos m = 2 ->
+  serve_segs [] [(Some i, [InPublish m]); (Some j, [InPubRel (m_id m)])]
+  = [[(0%nat, WPubRec (m_id m))]; [(j, Hand m); (0%nat, WPubComp (m_id m))]].
+Proof. exact q2_released_to_replacing_handler. Qed.
+
 Print Assumptions C04_refines_spec.
 Print Assumptions C04_q01_exactly_once_in_order.
 Print Assumptions C04_puback_after_hand.
@@ -61,3 +93,8 @@ Print Assumptions C04_pubrec_per_q2_publish.
 Print Assumptions C04_q2_one_hand_per_exchange.
 Print Assumptions C04_q2_no_hand_before_rel.
 Print Assumptions C04_no_handler_still_acks.
+Print Assumptions C04_refines_spec_segments.
+Print Assumptions C04_replacing_handler_is_invisible.
+Print Assumptions C04_hand_over_goes_to_current_handler.
+Print Assumptions C04_q2_stored_without_handler.
+Print Assumptions C04_q2_released_to_replacing_handler.
